@@ -59,7 +59,7 @@ Definition cs_check (i : cs_in) : option bool :=
     | _ => None
     end.
 (* ---- the run-time cache (C19:cos_sin_cache:cache-shorter-than-sequence).  ids = all position ids fed, S = sequence length.
-   [len_guard] = false: as read at bbeff32 -- ReduceMax(position_ids) + 1 rows; true: the fix (ready/C19_05) -- max(that, S). *)
+   [len_guard] = false: as read at bbeff32 -- ReduceMax(position_ids) + 1 rows; true: the fix (fix 48e3d56) -- max(that, S). *)
 Definition cache_rows (len_guard : bool) (ids : list nat) (S : nat) : nat :=
   let m := list_max ids + 1 in if len_guard then Nat.max m S else m.
 (* com.microsoft.RotaryEmbedding: every id must index a cache row, and the cache must have at least sequence_length rows
